@@ -27,6 +27,11 @@ def make_leaf(label):
             add_resource(object(), "default", [types[2]])  # prepare(): never remapped
 
         async def start(self):
+            if HARD.get("inner_ctx"):
+                # entering and leaving a context of its own must not change which context the
+                # component's later publications go through
+                async with Context():
+                    pass
             add_resource(object(), "default", [types[0]])  # start(): remapped by a `kind/name` alias
             add_resource(object(), "explicit", [types[1]])  # explicitly named: never remapped
             if label == "Kid" and HARD.get("nested_start"):
@@ -59,7 +64,7 @@ class SubRoot(Component):
 class Mid(Component):
     def __init__(self, **kw):
         LOG.append(("init", "Mid", kw))
-        self.add_component("deep", DeepLeaf, **copy.deepcopy(HARD.get("deep", {})))
+        self.add_component("deep", DeepLeaf, **HARD.get("deep", {}))
 
 
 class Root(Component):
@@ -68,10 +73,11 @@ class Root(Component):
         spelling = HARD["spelling"]
         tp = {0: KidLeaf, 1: "harness.c14:KidLeaf", 2: "c14leaf", 3: None}[spelling]
         alias = HARD["alias"]
+        # the hard-coded defaults are module-level data shared by every start: passed as they are (no copy)
         if tp is None:
-            self.add_component(alias, **copy.deepcopy(HARD["kid"]))
+            self.add_component(alias, **HARD["kid"])
         else:
-            self.add_component(alias, tp, **copy.deepcopy(HARD["kid"]))
+            self.add_component(alias, tp, **HARD["kid"])
         self.add_component("plain", PlainLeaf)
         self.add_component("mid", Mid)
 
@@ -110,7 +116,7 @@ def ref_merge(o, v):
 
 def params(tier):
     return [P("h1", 0, 2), P("e1", 0, 3), P("h2", 0, 2), P("e2", 0, 3), P("spelling", 0, 3), P("slash", 0, 1),
-            P("extra", 0, 2), P("deep", 0, 1), P("kidnone", 0, 1), P("nestedstart", 0, 1)]
+            P("extra", 0, 2), P("deep", 0, 1), P("kidnone", 0, 1), P("nestedstart", 0, 1), P("innerctx", 0, 1)]
 
 
 @guard
@@ -118,8 +124,10 @@ def fn(a, tier):
     install_entry_points()
     h1, e1, h2, e2 = pick(a["h1"], 3), pick(a["e1"], 4), pick(a["h2"], 3), pick(a["e2"], 4)
     spelling, slash = pick(a["spelling"], 4), pick(a["slash"], 2)
-    extra, deep, kidnone = pick(a["extra"], 3), pick(a["deep"], 2), pick(a["kidnone"], 2)
+    extra = pick(a["extra"], 3)
+    deep, kidnone = (1, 0) if tier == "quick" else (pick(a["deep"], 2), pick(a["kidnone"], 2))
     nestedstart = pick(a["nestedstart"], 2)
+    innerctx = pick(a["innerctx"], 2)
     # alias: with spelling "omitted" the alias (its part before '/') must itself name the type
     base = "c14leaf" if spelling == 3 else "kid"
     alias = f"{base}/special" if slash else base
@@ -134,7 +142,8 @@ def fn(a, tier):
     if e2:
         ext_kid["k2"] = ext_val(e2, "k2")
     HARD.clear()
-    HARD.update(spelling=spelling, alias=alias, kid=hard_kid, deep={"d": {"p": 1, "q": 1}}, nested_start=nestedstart)
+    HARD.update(spelling=spelling, alias=alias, kid=hard_kid, deep={"d": {"p": 1, "q": 1}}, nested_start=nestedstart, inner_ctx=innerctx)
+    hard_pristine = copy.deepcopy({"kid": HARD["kid"], "deep": HARD["deep"]})
     components = {}
     # (a null section for a hard-coded child is not generated: the statement reserves None for
     # config-only children, and merge_config's "None replaces a dict" would apply otherwise)
@@ -167,11 +176,13 @@ def fn(a, tier):
     log2, out2, exc2 = one_run()
     summary = {"hard_coded": {k: HARD_KINDS[v] for k, v in (("k1", h1), ("k2", h2))}, "external": {k: EXT_KINDS[v] for k, v in (("k1", e1), ("k2", e2))},
                "child_alias": alias, "type_given_as": SPELL[spelling], "config_only_child": ["none", "dict with a class type", "None, type from alias 'c14extra/cfgonly'"][extra],
-               "external_grandchild_config": bool(deep), "kid_starts_a_subtree_from_its_start": bool(nestedstart), "alias_absent_from_external_config": bool(kidnone and not ext_kid)}
+               "external_grandchild_config": bool(deep), "kid_starts_a_subtree_from_its_start": bool(nestedstart), "components_enter_a_context_of_their_own_in_start": bool(innerctx), "alias_absent_from_external_config": bool(kidnone and not ext_kid)}
     if exc1 is not None:
         return FAIL(f"start-failed:{type(exc1).__name__}:spelling={SPELL[spelling]}", repr(exc1), summary)
     if not unchanged_after_first or config != pristine:
         return FAIL("config-object-modified", f"{config!r} vs {pristine!r}", summary)
+    if {"kid": HARD["kid"], "deep": HARD["deep"]} != hard_pristine:
+        return FAIL("hard-coded-defaults-modified", f"{HARD['kid']!r} {HARD['deep']!r} vs {hard_pristine!r}", summary)
     if exc2 is not None or log2 != log1 or out2 != out1:
         return FAIL("second-start-from-same-config-differs", f"exc2={exc2!r} log1={log1} log2={log2}", summary)
     inits = {}
